@@ -244,7 +244,7 @@ def run(rep, progs, tier):
         rep.count("bodies_analysed_" + cfg, nb)
         rep.count("blocks_analysed_" + cfg, nblocks)
         rep.count("sites_" + cfg, len(sites))
-        used = {}
+        rest = []
         n_tag_unwrap = 0
         for s in sites:
             inst = "%s/%s" % (cfg, s.key)
@@ -268,11 +268,14 @@ def run(rep, progs, tier):
                          "cannot be validated statically (Duration::MAX.as_secs_f64() rounds up to 2^64) — "
                          "use try_from_secs_f64" % s.kind)
                 continue
-            used[s.key] = used.get(s.key, 0) + 1
-            aud = AUDITED.get(s.key)
-            if aud is not None and used[s.key] <= aud[0]:
+            rest.append(s)
+        am = panics.AuditMatcher(AUDITED, rest)
+        for s in rest:
+            aud, k = am.lookup(s)
+            inst = "%s/%s" % (cfg, k)
+            if aud is not None:
                 # an audited reason that is an argument about the callers is checked against the call graph
-                allowed = AUDITED_CALLERS.get(s.key)
+                allowed = AUDITED_CALLERS.get(k)
                 if allowed is not None:
                     from ..callgraph import short
                     root = prog.bodies.get(s.body.root, s.body)
@@ -284,7 +287,7 @@ def run(rep, progs, tier):
                               detail={"callers": callers})
                 rep.ok("C12.inventory", inst, detail={"where": s.where, "audited": aud[1]})
             else:
-                rep.fail("C12.inventory", "%s#%d" % (inst, used[s.key]) if aud else inst, s.where,
+                rep.fail("C12.inventory", inst, s.where,
                          "unaudited panic-capable construct `%s` in %s, reachable from typed response "
                          "conversion (a server-controlled reply can reach it)" % (s.kind, s.fn))
         rep.floor("C12.inventory", "%s/Tag::try_from(..).unwrap() sites" % cfg, n_tag_unwrap, 0)
